@@ -25,3 +25,15 @@ for cfg in ("default", "all-features"):
 with open(os.path.join(HERE, "vlib", "frozen_params.json"), "w") as fh:
     json.dump(table, fh, indent=0, sort_keys=True)
 print("froze parameter names of %d functions" % len(table))
+
+# the set of functions that exist on the confirmed tree (all feature configurations): a private function that is not
+# in this set is a later-extracted helper and is spliced into its callers (vlib/inline.py)
+keys = set()
+for cfg in extract.CONFIGS:
+    with open(extract.extract(cfg)) as fh:
+        for d in json.load(fh)["functions"]:
+            if d["kind"] != "closure":
+                keys.add(d["key"])
+with open(os.path.join(HERE, "vlib", "known_fns.json"), "w") as fh:
+    json.dump(sorted(keys), fh, indent=0)
+print("recorded %d known functions" % len(keys))
